@@ -3,6 +3,8 @@ whole zero era), every era boundary up to the largest encodable height, and the 
 import os
 import re
 
+from .. import enc
+
 LEVEL = 'exploration'
 
 INTERVAL = 1_050_000
@@ -175,9 +177,12 @@ def validator_boundaries():
     bad = []
     n = 0
 
-    def blk(height, prev, value):
+    def blk(height, prev, value, wire=False):
         values = value if isinstance(value, (list, tuple)) else [value]
         cb = Transaction([Input(OutputReference(b'\x00' * 32, 0), CoinbaseData(height, b''))], [Output(v, pk) for v in values])
+        if wire:
+            # as a peer would deliver it: encoded by the check's own encoder, decoded by the implementation
+            cb = Transaction.deserialize(enc.enc_tx(cb))
         s = BlockSummary(height, prev, cb.hash(), 1_700_000_000 + height % 1000, b'\xff' * 32, 0)
         return Block(BlockHeader(s, PowEvidence(b'\x01' * 32, b'\x02' * 32, b'\x03' * 32)), [cb])
     zero = CoinState.zero()
@@ -195,11 +200,15 @@ def validator_boundaries():
                 shapes += [([sub, sub], False, 'two outputs of subsidy(%d) each' % h),
                            ([sub // 2, sub - sub // 2], True, 'subsidy(%d) split in two' % h),
                            ([sub // 2, sub // 2, sub // 2], False, 'three outputs of half the subsidy'),
-                           ([1, 1, sub - 1], False, 'outputs 1, 1, subsidy-1'), ([1, 1, sub - 2], True, 'outputs 1, 1, subsidy-2')]
+                           ([1, 1, sub - 1], False, 'outputs 1, 1, subsidy-1'), ([1, 1, sub - 2], True, 'outputs 1, 1, subsidy-2'),
+                           # amounts that only exist on the wire: a huge output offset by one that wraps when read as signed
+                           ([4 * 10**18, 2**64 - (4 * 10**18 - sub)], False, 'wire amounts 4e18 and 2^64-(4e18-subsidy)'),
+                           ([2**63, 2**63 + sub], False, 'wire amounts 2^63 and 2^63+subsidy'),
+                           ([2**64 - 1, sub + 1], False, 'wire amounts 2^64-1 and subsidy+1')]
             for value, expect_ok, label in shapes:
                 n += 1
-                cand = blk(h, parent.hash(), value)
                 try:
+                    cand = blk(h, parent.hash(), value, wire=isinstance(value, list) and max(value) >= 2**63)
                     C.validate_coinbase_transaction_in_coinstate(cand.transactions[0], cand, cs)
                     ok = True
                 except Exception:
